@@ -328,6 +328,29 @@ let reg_case toks impl =
 let opt_key = function Some k -> tok_of_key k | None -> "-"
 (* contexts persist per session id within a case: Y/Z start a fresh context, y/z re-enter with the kept one,
    n<sid> / m<sid> clear the address fields (what the protocol code does after a refused reservation) *)
+(* the context's prefix as the harness shows a *net.IPNet *)
+let show_ctx_pfx = function
+  | None -> "-"
+  | Some PNil -> "pnil"
+  | Some (Pfx (Some (V6, a), o, b)) -> "p" ^ decimal_of_n a ^ "/" ^ decimal_of_n o ^ ":" ^ decimal_of_n b
+  | Some (Pfx (Some a, _, _)) -> "p?" ^ tok_of_addr a
+  | Some (Pfx (None, _, _)) -> "p?bad"
+
+(* AAA attribute tokens: "-" absent, "!" not a string, "junk" unparseable string, otherwise the text *)
+let av_of tok (f : string -> 'a) : 'a option aval =
+  if tok = "-" then AvAbsent else if tok = "!" then AvNotString else if tok = "junk" then AvStr None else AvStr (Some (f tok))
+let av_name tok : n aval =
+  if tok = "-" then AvAbsent else if tok = "!" then AvNotString else if tok = "junk" then AvStr (n_of_int 999) else AvStr (n_of_str tok)
+let cidr_of tok = let i = String.rindex tok '/' in (addr_exn (String.sub tok 0 i), n_of_str (String.sub tok (i+1) (String.length tok - i - 1)))
+let ctx4_of_attrs q = match q with
+  | [s; pf; vrf; a4; pool] -> (s, new_context4 (n_of_str pf) (n_of_str vrf) { at_v4 = av_of a4 addr_exn; at_pool = av_name pool })
+  | _ -> failwith "X"
+let ctx6_of_attrs q = match q with
+  | [s; pf; vrf; a6; pd; nap; pdp] ->
+    (s, new_context6 (n_of_str pf) (n_of_str vrf)
+       { at_v6 = av_of a6 addr_exn; at_pd = av_of pd cidr_of; at_napool = av_name nap; at_pdpool = av_name pdp })
+  | _ -> failwith "W"
+
 (* resn: the same ops with no registry at all (GetGlobalRegistry() == nil, nil *Registry receivers) *)
 let resn_case toks impl =
   let (_, r) = parse_profiles toks in
@@ -350,10 +373,11 @@ let resn_case toks impl =
     let obspd = if cx.c6_pd = None && fld "pd" <> "-" then dummy else None in
     match resolve6_ctx_opt variant None (n_of_str sid) cx obsna obspd None None with
     | Some ((_, cx'), r) -> Hashtbl.replace c6 sid cx';
-      Printf.sprintf "%s;na=%s;napool=%s;pd=%s;pdpool=%s;rna=%s;rpd=%s" (if r.r6_nil then "nil" else "ok")
+      Printf.sprintf "%s;na=%s;napool=%s;pd=%s;pdpool=%s;rna=%s;rpd=%s;cpd=%s" (if r.r6_nil then "nil" else "ok")
         (match cx'.c6_na with Some a -> tok_of_addr a | None -> "-") (opt_key cx'.c6_napool)
         (match r.r6_pd with Some o -> show_gobs o | None -> "-") (opt_key cx'.c6_pdpool)
         (if r.r6_nil then "-" else opt_key r.r6_napool) (if r.r6_nil then "-" else opt_key r.r6_pdpool)
+        (show_ctx_pfx cx'.c6_pd)
     | None -> raise (Stop "INADMISSIBLE:an-address-or-prefix-from-no-registry") in
   run_ops ops impl (fun op it ->
     match op.[0] with
@@ -363,6 +387,8 @@ let resn_case toks impl =
          let have = if have = "-" then None else Some (unmap (addr_exn have)) in
          run4 s { c4_pf = n_of_str pf; c4_ov = n_of_str ov; c4_vrf = n_of_str vrf; c4_addr = have; c4_pool = None } it
        | _ -> failwith "Y")
+    | 'X' -> let (sid, cx) = ctx4_of_attrs (split_on ',' (rest op)) in run4 sid cx it
+    | 'W' -> let (sid, cx) = ctx6_of_attrs (split_on ',' (rest op)) in run6 sid cx it
     | 'y' -> (match Hashtbl.find_opt c4 (rest op) with Some cx -> run4 (rest op) cx it | None -> "noctx")
     | 'n' -> (match Hashtbl.find_opt c4 (rest op) with
         | Some cx -> Hashtbl.replace c4 (rest op) { cx with c4_addr = None }; "ok" | None -> "noctx")
@@ -438,10 +464,11 @@ let res_case toks impl =
     match resolve6_ctx variant !st (n_of_str sid) cx obsna obspd wna wpd with
     | Some ((st', cx'), r) ->
       st := st'; Hashtbl.replace c6 sid cx';
-      Printf.sprintf "%s;na=%s;napool=%s;pd=%s;pdpool=%s;rna=%s;rpd=%s" (if r.r6_nil then "nil" else "ok")
+      Printf.sprintf "%s;na=%s;napool=%s;pd=%s;pdpool=%s;rna=%s;rpd=%s;cpd=%s" (if r.r6_nil then "nil" else "ok")
         (match cx'.c6_na with Some a -> tok_of_addr a | None -> "-") (opt_key cx'.c6_napool)
         (match r.r6_pd with Some o -> show_gobs o | None -> "-") (opt_key cx'.c6_pdpool)
         (if r.r6_nil then "-" else opt_key r.r6_napool) (if r.r6_nil then "-" else opt_key r.r6_pdpool)
+        (show_ctx_pfx cx'.c6_pd)
     | None -> raise (Stop "INADMISSIBLE:resolve6") in
   run_ops ops impl (fun op it ->
     match op.[0] with
@@ -451,6 +478,8 @@ let res_case toks impl =
          let have = if have = "-" then None else Some (unmap (addr_exn have)) in
          run4 s { c4_pf = n_of_str pf; c4_ov = n_of_str ov; c4_vrf = n_of_str vrf; c4_addr = have; c4_pool = None } it
        | _ -> failwith "Y")
+    | 'X' -> let (sid, cx) = ctx4_of_attrs (split_on ',' (rest op)) in run4 sid cx it
+    | 'W' -> let (sid, cx) = ctx6_of_attrs (split_on ',' (rest op)) in run6 sid cx it
     | 'y' -> (match Hashtbl.find_opt c4 (rest op) with Some cx -> run4 (rest op) cx it | None -> "noctx")
     | 'n' -> (match Hashtbl.find_opt c4 (rest op) with
         | Some cx -> Hashtbl.replace c4 (rest op) { cx with c4_addr = None }; "ok" | None -> "noctx")
